@@ -15,6 +15,7 @@ import (
 	"sort"
 	"strings"
 	"testing"
+	"time"
 
 	"github.com/modelcontextprotocol/go-sdk/internal/verifx"
 	vs "github.com/modelcontextprotocol/go-sdk/internal/vsched"
@@ -41,6 +42,11 @@ type c10Opts struct {
 	// issued outside any request of the receiving sessions: it belongs on each subscribed session's
 	// standalone stream, never on the exchange of a request - of whichever session and id.
 	broadcast bool
+	// outOfBand: while its request is in flight every handler also sends a notification under a
+	// detached context (issued outside any request: standalone stream or nowhere), and the handler of
+	// A1 changes the server's tool list and stays in flight until the debounced list_changed broadcast
+	// has gone out (to every entitled session: standalone streams, never a request's exchange)
+	outOfBand bool
 }
 
 func c10Messages(rec *httptest.ResponseRecorder) ([]map[string]any, error) {
@@ -123,6 +129,15 @@ func c10Run(o c10Opts) vs.Verdict {
 	})
 	AddTool(s, &Tool{Name: "echo"}, func(ctx context.Context, r *CallToolRequest, in c10Args) (*CallToolResult, any, error) {
 		r.Session.NotifyProgress(ctx, &ProgressNotificationParams{ProgressToken: "p", Progress: 1, Message: in.Tag})
+		if o.outOfBand {
+			r.Session.NotifyProgress(context.Background(), &ProgressNotificationParams{ProgressToken: "p", Progress: 2, Message: in.Tag + ":detached"})
+			if in.Tag == "A1" {
+				AddTool(s, &Tool{Name: "extra"}, func(context.Context, *CallToolRequest, c10Args) (*CallToolResult, any, error) {
+					return &CallToolResult{}, nil, nil
+				})
+				time.Sleep(50 * time.Millisecond) // (the change notification is debounced by 10ms)
+			}
+		}
 		if g := gates[in.Tag]; g != nil {
 			g.Wait()
 		}
@@ -237,7 +252,11 @@ func c10Run(o c10Opts) vs.Verdict {
 					f.failf("response-id", "the exchange of request %s carries a response with id %v", p.tag, m["id"])
 				}
 			case "notification":
-				if m["method"] == "notifications/resources/updated" {
+				if m["method"] == "notifications/tools/list_changed" {
+					f.failf("broadcast-on-request-exchange", "the exchange of request %s (session %s, id %d) carries the tools/list_changed broadcast, which belongs on the standalone streams of the entitled sessions", p.tag, p.sess, p.id)
+				} else if strings.HasSuffix(tag, ":detached") {
+					f.failf("detached-notification-on-request-exchange", "the exchange of request %s carries the notification %q, which was issued under a detached context (outside any request)", p.tag, tag)
+				} else if m["method"] == "notifications/resources/updated" {
 					f.failf("broadcast-on-request-exchange", "the exchange of request %s (session %s, id %d) carries a resources/updated broadcast, which belongs on the standalone stream of each subscribed session", p.tag, p.sess, p.id)
 				} else if tag != p.tag {
 					f.failf("notification-on-foreign-exchange", "the exchange of request %s carries a notification issued while handling %s", p.tag, tag)
@@ -278,6 +297,9 @@ func c10Run(o c10Opts) vs.Verdict {
 			}
 			if m["method"] == "notifications/resources/updated" {
 				updates++
+				continue
+			}
+			if m["method"] == "notifications/tools/list_changed" {
 				continue
 			}
 			if kind == "notification" && !strings.HasPrefix(tag, lbl) {
@@ -827,6 +849,11 @@ func TestVerifC10(t *testing.T) {
 		mk("stateful-sse", c10Opts{}, b),
 		mk("stateful-json", c10Opts{jsonResp: true}, b),
 		mk("stateless-sse", c10Opts{stateless: true}, b),
+		mk("stateless-json", c10Opts{stateless: true, jsonResp: true}, b),
+		mk("stateless-sse/out-of-band-messages", c10Opts{stateless: true, outOfBand: true}, b),
+		mk("stateless-json/out-of-band-messages", c10Opts{stateless: true, jsonResp: true, outOfBand: true}, b),
+		mk("stateful-sse/out-of-band-messages", c10Opts{outOfBand: true}, b),
+		mk("stateful-json/out-of-band-messages", c10Opts{jsonResp: true, outOfBand: true}, b),
 		mk("stateful-sse/broadcast-from-handlers", c10Opts{broadcast: true}, b),
 		mk("stateful-sse/duplicate-in-flight-id", c10Opts{dupID: true}, env.Pick(2, 3)),
 		mk("stateful-sse+store/duplicate-in-flight-id", c10Opts{dupID: true, store: true}, env.Pick(2, 3)),
